@@ -16,7 +16,7 @@ import sys
 import time
 import traceback
 
-from . import core, units
+from . import core, units, world
 from .harness import SymWorld, ConcWorld, ContractViolation
 
 VERIF = os.path.dirname(os.path.dirname(os.path.abspath(__file__)))
@@ -99,6 +99,7 @@ def run_job(job):
             return None
 
         results = core.explore(run)
+        world.scrub_symbolic_leftovers()
         for r in results:
             out["paths"] += 1
             out["solver_s"] += r.solver_time
